@@ -153,12 +153,14 @@ Proof.
 Qed.
 
 Theorem child_update_iff held m c r :
-  is_err (child_update held m c r) = true <-> rs_contains held r = false \/ cget m c = None.
+  is_err (child_update held m c r) = true <->
+  rs_is_empty r = true \/ rs_contains held r = false \/ cget m c = None.
 Proof.
   unfold child_update.
+  destruct (rs_is_empty r); simpl; [split; auto|].
   destruct (rs_contains held r); simpl; [|split; auto].
   destruct (cget m c) as [cur|]; simpl.
-  - destruct (rs_eqb r cur); simpl; split; try discriminate; intros [H|H]; discriminate.
+  - destruct (rs_eqb r cur); simpl; split; try discriminate; intros [H|[H|H]]; discriminate.
   - split; auto.
 Qed.
 
@@ -178,33 +180,36 @@ Proof.
   destruct (get N.eqb m c); simpl; [discriminate|]. intros H; inversion H; auto.
 Qed.
 
-(** The statement one would like for updates as well: a child is never left entitled to nothing. *)
-Definition child_update_nonempty_full : Prop :=
-  forall held m c r evs, child_update held m c r = Ok evs -> evs <> [] -> rs_is_empty r = false.
-
 Definition cu_held : resources := mkRes [(64512, 64600)] [(167772160, 184549375)] [].
 Definition cu_children : children := [(1, mkRes [(64512, 64512)] [] [])].
 
-Theorem child_update_nonempty_refuted : ~ child_update_nonempty_full.
-Proof.
-  intros H. specialize (H cu_held cu_children 1 (mkRes [] [] []) [CEvUpdated 1 (mkRes [] [] [])] eq_refl).
-  assert (K : rs_is_empty (mkRes [] [] []) = false) by (apply H; discriminate). discriminate.
-Qed.
-
-(** What does hold: whatever an accepted update entitles the child to is held by the CA. *)
+(** An accepted update never leaves the child entitled to nothing, and whatever it
+    entitles the child to is held by the CA. *)
 Theorem child_update_ok_spec held m c r evs :
   child_update held m c r = Ok evs ->
-  rs_contains held r = true /\ exists cur, cget m c = Some cur /\ (evs = [] /\ rs_eqb r cur = true \/ evs = [CEvUpdated c r]).
+  rs_is_empty r = false /\ rs_contains held r = true
+  /\ exists cur, cget m c = Some cur /\ (evs = [] /\ rs_eqb r cur = true \/ evs = [CEvUpdated c r]).
 Proof.
-  unfold child_update. destruct (rs_contains held r); simpl; [|discriminate].
+  unfold child_update. destruct (rs_is_empty r); [discriminate|].
+  destruct (rs_contains held r); simpl; [|discriminate].
   destruct (cget m c) as [cur|]; [|discriminate].
-  destruct (rs_eqb r cur) eqn:E; intros H; inversion H; split; auto; exists cur; auto.
+  destruct (rs_eqb r cur) eqn:E; intros H; inversion H; repeat split; auto; exists cur; auto.
 Qed.
+
+Theorem child_update_nonempty held m c r evs : child_update held m c r = Ok evs -> rs_is_empty r = false.
+Proof. intros H. apply (child_update_ok_spec _ _ _ _ _ H). Qed.
+
+(** The originally pinned tree (finding F05c, repaired in 1b4277e7) accepted the empty set. *)
+Example child_update_nonempty_pinned_refuted :
+  child_update_pinned cu_held cu_children 1 (mkRes [] [] []) = Ok [CEvUpdated 1 (mkRes [] [] [])]
+  /\ child_update cu_held cu_children 1 (mkRes [] [] []) = Err CMustHaveResources.
+Proof. vm_compute. auto. Qed.
 
 Example child_add_iff_nonvacuous :
   ca_child_op cu_held cu_children (CAdd 2 (mkRes [] [(167772160, 167772415)] [])) =
     ((2, mkRes [] [(167772160, 167772415)] []) :: cu_children, None)
   /\ ca_child_op cu_held cu_children (CAdd 2 (mkRes [] [(3232235520, 3232235775)] [])) = (cu_children, Some CExtraResources)
   /\ ca_child_op cu_held cu_children (CAdd 2 (mkRes [] [] [])) = (cu_children, Some CMustHaveResources)
-  /\ ca_child_op cu_held cu_children (CUpdate 3 (mkRes [] [] [])) = (cu_children, Some CUnknown).
+  /\ ca_child_op cu_held cu_children (CUpdate 3 (mkRes [(64512, 64512)] [] [])) = (cu_children, Some CUnknown)
+  /\ ca_child_op cu_held cu_children (CUpdate 1 (mkRes [(64513, 64513)] [] [])) = ([(1, mkRes [(64513, 64513)] [] [])], None).
 Proof. vm_compute. auto. Qed.
